@@ -216,6 +216,8 @@ def config_text(case):
         if mv_:
             # moving restraint (continuous update): centres and/or force constant are functions of the step number
             L.append("  targetNumSteps %d" % mv_["N"])
+            if mv_.get("stages"):
+                L.append("  targetNumStages %d" % mv_["stages"])
             if mv_.get("tc") is not None:
                 L.append("  targetCenters " + " ".join(("%r" % c) if not isinstance(c, (tuple, list)) else "(" + ", ".join("%r" % x for x in c) + ")" for c in mv_["tc"]))
             if mv_.get("tk") is not None:
@@ -240,6 +242,12 @@ def event_lines(case):
     """script calls for the history of run-time modifications (modelled events and raw script lines)"""
     L = []
     for e in case.get("events", []):
+        if e["type"] in ("biasoff", "biason"):
+            L.append("scriptu cv|bias|b%d|set|apply_force|%d" % (e["bias"], 1 if e["type"] == "biason" else 0))
+            continue
+        if e["type"] == "delbias":
+            L.append("scriptu cv|bias|b%d|delete" % e["bias"])
+            continue
         v = case["vars"][e["var"]]
         pos = cxx_order(v)
         if e["type"] == "mod":
@@ -261,11 +269,22 @@ def event_lines(case):
     return L + list(case.get("script", []))
 
 
+def bias_active(case):
+    """which biases contribute energy and forces at the measured steps: not deleted, apply_force on"""
+    act = [True] * len(case.get("biases", []))
+    for e in case.get("events", []):
+        if e["type"] in ("biasoff", "delbias"):
+            act[e["bias"]] = False
+        elif e["type"] == "biason":
+            act[e["bias"]] = True
+    return act
+
+
 def n_event_steps(case):
     """steps run before the base step because of the history: one warm-up step (the components are in use when they are
     modified) and one step after every script call"""
     n = len(event_lines(case))
-    return n + 1 if (n or case.get("fd_setstep") is not None) else 0
+    return (n + 1 if (n or case.get("fd_setstep") is not None) else 0) + len(case.get("stage_visits", []))
 
 
 def npre_steps(case):
@@ -305,7 +324,10 @@ def scenario(case, tag, with_fd=True):
     if case.get("temperature"):
         L.append("temperature %r" % case["temperature"])
     L.append("restartfreq %d" % case.get("restartfreq", 0))
-    L += ["fresh", "config EOF", config_text(case), "EOF"]
+    L.append("fresh")
+    if case.get("init_step") is not None:
+        L.append("setstep %d" % case["init_step"])      # the job starts at a large absolute step number (first_step of the biases)
+    L += ["config EOF", config_text(case), "EOF"]
     if case.get("setstep") is not None:
         L.append("setstep %d" % case["setstep"])
     ev = event_lines(case)
@@ -315,6 +337,8 @@ def scenario(case, tag, with_fd=True):
         L += ["show cv 0 bias 0 atomf 0", "step"]
         for ln in ev:
             L += [ln, "step"]
+        for X in case.get("stage_visits", []):
+            L += ["setstep %d" % (X - 1), "step"]
     for pre in case.get("presteps", []):      # history biases: steps at other positions first
         L.append("show cv 1 bias 0 atomf 0")
         for i, p in pre:
@@ -327,8 +351,10 @@ def scenario(case, tag, with_fd=True):
         # configured with changed options, and the state is loaded into it: the measured steps run there
         pfx = state_prefix()
         L += ["show cv 1 bias 0 atomf 0", "step"]
-        L += ["save %s %s.colvars.state" % (case["restart"].get("fmt", "text"), pfx), "fresh", "config EOF", restart_config_text(case), "EOF",
-              "load %s" % pfx]
+        fmt = case["restart"].get("fmt", "text")
+        how = {"text": "load %s" % pfx, "binary": "load %s" % pfx, "textstr": "loadstr %s.colvars.state" % pfx,
+               "binarybuf": "loadbuf %s.colvars.state" % pfx}[fmt]
+        L += ["save %s %s.colvars.state" % ("binary" if fmt.startswith("binary") else "text", pfx), "fresh", "config EOF", restart_config_text(case), "EOF", how]
     # moving restraints: every measured step is run at the same step number, where centres / force constant are frozen
     fs = ["setstep %d" % case["fd_setstep"]] if case.get("fd_setstep") is not None else []
     L += ["show cv 1 bias 1 atomf 1 af 1"] + fs + ["step", "show cv 1 bias 0 atomf 0 af 0"]
@@ -451,13 +477,16 @@ def model_line(case, res=None):
             for g in c["groups"]:
                 t += group_tokens(g)
             t.append(hx(v["period"] if v.get("period") else PERIODIC.get(k, 0.0)))      # the component's own period
-    t.append(str(len(case["biases"])))
+    act = bias_active(case)
+    t.append(str(sum(1 for a_ in act if a_)))
     pre = []
     pre_all = []
     if res is not None:
         pre = pre_values(case, res, False)
         pre_all = pre_values(case, res, True)
     for jb, b in enumerate(case["biases"]):
+        if not act[jb]:
+            continue
         if b["type"] == "meta":
             # one hill, deposited at the last pre-step (step 1000): centre = the variable values printed there; the hill keeps
             # the weight and the widths it was deposited with (those of the configuration of the FIRST instance), also after
@@ -493,7 +522,10 @@ def model_line(case, res=None):
         keff = lambda k0: k0
         if b.get("moving"):
             # colvarbias_restraint_centers_moving / k_moving::update, continuous: lambda = (step - first_step) / targetNumSteps
-            lam = (case["fd_setstep"] + 1) / float(b["moving"]["N"])
+            lam = float(case["fd_setstep"] + 1 - (case.get("init_step") or 0)) / float(b["moving"]["N"])
+            if b["moving"].get("stages"):
+                # staged: the k-th visited jump step sets lambda = (k - 1) / stages (the stage counter starts at 0)
+                lam = float(b["moving"]["K"] - 1) / float(b["moving"]["stages"])
             if b["moving"].get("tk") is not None:
                 keff = lambda k0: k0 + (b["moving"]["tk"] - k0) * lam ** b["moving"].get("kexp", 1.0)
         if b["type"] in ("harmonic", "linear"):
@@ -525,7 +557,7 @@ def model_line(case, res=None):
             for (i, lo, up) in b["terms"]:
                 t += [str(vmap[i][0]), hx(lo), hx(up)]
     # history of run-time modifications (component indices in configuration order, as in the model's lists)
-    evs = case.get("events", [])
+    evs = [e for e in case.get("events", []) if e["type"] in ("mod", "flags")]
     t.append(str(len(evs)))
     for e in evs:
         if e["type"] == "mod":
@@ -867,7 +899,7 @@ def gen_case(r, kinds, opts):
     case = {"cell": None}
     if opts["cell"] and r.random() < 0.35:
         case["cell"] = tuple(r.choice([8.0, 16.0, 12.0]) for _ in range(3))
-    nv = 1 if r.random() < 0.7 else 2
+    nv = r.choice([1] * 13 + [2] * 5 + [3] * 2)            # up to three variables
     for attempt in range(60):
         case["atoms"] = [(r.choice(MASSES), V.dyadic(r, -2, 2, bits=3),
                           tuple(V.dyadic(r, -4, 4, bits=6) for _ in range(3))) for _ in range(n_atoms)]
@@ -899,7 +931,7 @@ def gen_case(r, kinds, opts):
                 c["exp"] = 1
                 vars_.append({"width": r.choice([1.0, 1.0, 0.5, 2.0]), "cvcs": [c], "vec": True})
                 continue
-            ncv = 1 if (not opts["poly"] or r.random() < 0.6) else 2
+            ncv = 1 if not opts["poly"] else r.choice([1] * 11 + [2] * 6 + [3] * 2 + [4])     # up to four components (the odd one inside)
             cvcs = []
             for ci in range(ncv):
                 c = gen_cvc(r, r.choice(kinds), n_atoms, opts)
@@ -916,7 +948,7 @@ def gen_case(r, kinds, opts):
     else:
         return None
     # biases
-    nb = 1 if r.random() < 0.7 else 2
+    nb = r.choice([1] * 13 + [2] * 5 + [3] * 2)            # up to three biases
     case["biases"] = []
     for bi in range(nb):
         bt = r.choice(opts["biases"])
@@ -993,7 +1025,8 @@ def gen_case(r, kinds, opts):
         if kind == "meta":
             vis = [r.randrange(nv)] if (nv == 1 or r.random() < 0.5) else list(range(nv))
             b = {"type": "meta", "W": r.choice([1.0, 2.0, 0.5, 4.0]), "terms": [(i, r.choice([1.0, 4.0, 16.0, 0.5])) for i in vis]}
-            case["setstep"] = 999
+            # (hills are deposited when step % 1000 == 0: also far beyond 2^31, 2^32, 2^53 and near 2^62)
+            case["setstep"] = r.choice([999, 999, 2999999999, 4294967295999, 9007199254740999, 4611686018427386999])
             case["presteps"] = [disp(), disp()]
         else:
             i = r.choice(scal)
@@ -1005,15 +1038,48 @@ def gen_case(r, kinds, opts):
         add_restart(r, case)
     if opts.get("events") and r.random() < opts["events"] and not case.get("restart"):
         add_history(r, case, n_atoms, opts)
+    if opts.get("events") and r.random() < 0.5 * opts["events"] and not case.get("restart") and not case.get("presteps") \
+       and not any(b["type"] in ("meta", "abmd") for b in case["biases"]):
+        # two holders of the same kind of thing, one of them switched off for a few steps / deleted in the middle of the session
+        nbs = len(case["biases"])
+        evs = case.setdefault("events", [])
+        j = r.randrange(nbs)
+        m = r.random()
+        if m < 0.4:
+            evs += [{"type": "biasoff", "bias": j}, {"type": "biason", "bias": j}]
+        elif m < 0.7 and nbs >= 2:
+            evs += [{"type": "biasoff", "bias": j}]
+        elif nbs >= 2:
+            evs += [{"type": "delbias", "bias": j}]
+        else:
+            evs += [{"type": "biasoff", "bias": j}, {"type": "biason", "bias": j}]
     if opts.get("moving") and r.random() < opts["moving"] and not case.get("presteps") and not case.get("restart"):
         # moving restraints, evaluated at a fixed step number S <= targetNumSteps (dyadic lambda = S/N)
-        N = r.choice([1024, 512])
+        N = r.choice([1024, 512, 1000, 6, 12, 7, 5, 3])          # also targetNumSteps that are not powers of two
+        if r.random() < 0.4:
+            case["init_step"] = r.choice([2 ** 31, 2 ** 32 + 7, 2 ** 53 + 1001, 2 ** 62 - 5000])
+        staged = r.random() < 0.3 and not case.get("events")     # (event steps would pass through jump steps themselves)
+        if staged:
+            # staged centres (targetNumStages >= 3): the centres jump at the steps first + 1 + k n; the scenario visits K of
+            # them (setstep + step), then measures between two of them: lambda = (K - 1) / stages
+            N = r.choice([10, 7, 12])
+            nst = r.choice([3, 4, 5])
+            K = r.randint(1, nst + 1)
+            first = case.get("init_step") or 0
         for b in case["biases"]:
             if b["type"] not in ("harmonic", "linear", "walls"):
                 continue
             mv_ = {"N": N}
             m = r.random()
             plain_vars = not any(var_period(case["vars"][t[0]]) for t in b["terms"])
+            if staged:
+                if b["type"] == "walls" or not plain_vars:
+                    continue
+                m = 0.0
+                mv_["stages"] = nst
+                mv_["K"] = K
+                case["stage_visits"] = [first + 1 + k_ * N for k_ in range(K)]
+                case["fd_setstep"] = first + (K - 1) * N + N // 2
             if b["type"] != "walls" and plain_vars and m < 0.5:
                 def shift(c):
                     if isinstance(c, (tuple, list)):
@@ -1025,7 +1091,8 @@ def gen_case(r, kinds, opts):
                 mv_["kexp"] = r.choice([1.0, 1.0, 2.0, 4.0])
             b["moving"] = mv_
             if "fd_setstep" not in case:
-                case["fd_setstep"] = r.choice([N // 4, N // 2, 3 * N // 4, N]) - 1      # lambda = (S + 1)/N is dyadic
+                S_ = r.choice([N // 4, N // 2, 3 * N // 4, N]) if N >= 512 else r.randint(1, N)
+                case["fd_setstep"] = (case.get("init_step") or 0) + S_ - 1
     return case
 
 
@@ -1050,7 +1117,7 @@ def add_restart(r, case):
             b["k"] = other(b["k"], [1.0, 2.0, 0.5, 10.0])
         elif b["type"] == "hist":
             b["k"] = other(b["k"], [1.0, 10.0, 4.0])
-    case["restart"] = {"biases": B, "fmt": r.choice(["text", "binary"])}
+    case["restart"] = {"biases": B, "fmt": r.choice(["text", "binary", "textstr", "binarybuf"])}
 
 
 def add_history(r, case, n_atoms, opts):
@@ -1109,6 +1176,8 @@ def effective_params(case):
     """live (coeff, exp, active) of every component after the history (python mirror, for labels only)"""
     out = [[[c.get("coeff", 1.0), c.get("exp", 1), True] for c in v["cvcs"]] for v in case["vars"]]
     for e in case.get("events", []):
+        if e["type"] not in ("mod", "flags"):
+            continue
         if e["type"] == "mod":
             t = out[e["var"]][e["comp"]]
             if e.get("coeff") is not None:
@@ -1128,7 +1197,8 @@ def history_label(case):
     lab = set()
     eff = effective_params(case)
     for e in case["events"]:
-        lab.add("cvcflags" if e["type"] == "flags" else "modifycvcs")
+        lab.add({"flags": "cvcflags", "mod": "modifycvcs", "biasoff": "bias-apply_force-off", "biason": "bias-apply_force-on-again",
+                 "delbias": "bias-deleted"}[e["type"]])
     for v, ps in zip(case["vars"], eff):
         lin0 = all(c.get("exp", 1) == 1 for c in v["cvcs"])
         hom0 = lin0 and all(abs(abs(c.get("coeff", 1.0)) - 1.0) < 1e-10 for c in v["cvcs"])
@@ -1141,7 +1211,7 @@ def history_label(case):
         if not lin0 and lin1:
             lab.add("became-linear")
         if var_period(v) and not hom1:
-            lab.add("stale-periodic")
+            lab.add("periodicity-refreshed")
         if not all(p_[2] for p_ in ps):
             lab.add("component-off")
     return "history:" + "+".join(sorted(lab))
@@ -1277,6 +1347,12 @@ def fd_check(case, res):
         e = [fd_steps[4 * n + j].get("energy") for j in range(4)]
         if any(x is None or math.isnan(x) or math.isinf(x) for x in e):
             return "ambiguous", "energy not finite near the base point"
+        e0 = base.get("energy")
+        if e0 is not None and abs(e[0] + e[1] - 2.0 * e0) / H1 > 0.05 * max(abs(e[0] - e[1]) / (2 * H1), abs(forces.get(a, [0.0, 0.0, 0.0])[k]), 1e-3 * fmax) \
+           and abs(e[0] + e[1] - 2.0 * e0) > 64 * noise * H1:
+            # the two one-sided difference quotients disagree: the base point sits on a kink of the energy (a minimum-image cut
+            # between two CENTRES, a wall, a truncation radius); no verdict for this configuration
+            return "ambiguous", "one-sided finite differences disagree at the base point (atom %d axis %d)" % (a + 1, k)
         d1 = (e[0] - e[1]) / (2 * H1)
         d2 = (e[2] - e[3]) / (2 * H2)
         rich = (4 * d2 - d1) / 3.0
@@ -1316,7 +1392,10 @@ def fd_check(case, res):
 
 def walls_ambiguous(case, base, res=None):
     """a variable within 0.05 of a wall position (or of the ABMD reference): the energy has a kink there"""
+    act = bias_active(case)
     for j, b in enumerate(case.get("biases", [])):
+        if not act[j]:
+            continue
         if b["type"] == "meta":
             # the hill is set to zero beyond exponent 23 (a jump of W*1e-5 in the energy): decided only well inside
             e = base.get("bias", {}).get("b%d" % j)
@@ -1407,7 +1486,7 @@ def gen_unmodelled(r, n):
                   "rmsd_perm", "lincomb_coordNum", "lincomb_selfCoordNum", "distanceZ2_period",
                   "ev_forceNoPBC", "ev_period", "ev_distanceVec_coeff", "ev_rmsd_exp", "ev_dihedral_coeff", "ev_distancePairs_coeff",
                   "gspathCV", "gzpathCV", "aspathCV", "azpathCV", "gspath", "gzpath", "aspath", "azpath", "scripted_vsum", "lincomb_distanceVec",
-                  "meta_nogrid_restart", "cell_meta_nogrid_restart", "opes_frozen_restart", "abmd_restart"]
+                  "meta_nogrid_restart", "cell_meta_nogrid_restart", "opes_frozen_restart", "abmd_restart", "antipodal_distanceDir", "ev_badconfig"]
     names = names + cell_names
     only = os.environ.get("C01_ONLY")          # debugging aid: restrict the sweep to kinds containing this text
     if only:
@@ -1431,12 +1510,16 @@ def gen_unmodelled(r, n):
         pre = None
         script = None
         files = None
+        exact = None
+        script_error_ok = False
         touched = sorted(set(ids + oth2))
         fitopts = "centerToReference on\n      rotateToReference on\n      refPositions %s" % refpos_str(r, 4)
         if name == "rot_distance":
             conf = "colvar {\n  name v0\n  distanceZ {\n    main {\n      atomNumbers %s\n      %s\n    }\n    ref {\n      dummyAtom (0.5, 0.25, -1.0)\n    }\n    axis (0.6, 0.8, 0.0)\n  }\n}\n%s" % (ids_str(ids), fitopts, harm)
         elif name == "rot_fit_distance":
-            fit = r.sample(others, 3) if len(others) >= 3 else others
+            # (three fitted atoms at least: with two, the optimal rotation is degenerate -- any rotation about their axis --
+            # and its derivative is not defined)
+            fit = r.sample(others, 3) if len(others) >= 3 else (others + ids[2:4])[:3]
             touched = sorted(set(ids[:2] + fit))
             conf = ("colvar {\n  name v0\n  distanceZ {\n    main {\n      atomNumbers %s\n      centerToReference on\n      rotateToReference on\n"
                     "      refPositions %s\n      fittingGroup {\n        atomNumbers %s\n      }\n    }\n    ref {\n      dummyAtom (0.5, 0.25, -1.0)\n    }\n    axis (0.0, 0.6, 0.8)\n  }\n}\n%s"
@@ -1669,6 +1752,28 @@ def gen_unmodelled(r, n):
             conf = ("colvar {\n  name v0\n  linearCombination {\n    distanceVec {\n      name a\n      componentCoeff 2.0\n      group1 {\n        atomNumbers %s\n      }\n      group2 {\n        atomNumbers %s\n      }\n    }\n"
                     "    distanceVec {\n      name b\n      componentCoeff -0.5\n      group1 {\n        atomNumbers %s\n      }\n      group2 {\n        atomNumbers %s\n      }\n    }\n  }\n}\n"
                     "harmonic {\n  colvars v0\n  centers (1.0, 0.5, -0.5)\n  forceConstant 2.0\n}" % (ids_str(ids[:2]), ids_str(oth2), ids_str(ids[2:]), ids_str(oth2[:1])))
+        elif name == "ev_badconfig":
+            # a configuration string rejected in the middle of a session (after the module, the variable's atoms and, for a
+            # bias, its name counters were touched); the session goes on: forces are still minus the gradient of the energy
+            touched = sorted(set(ids[:2] + oth2))
+            conf = ("colvar {\n  name v0\n  distance {\n    group1 {\n      atomNumbers %s\n    }\n    group2 {\n      atomNumbers %s\n    }\n  }\n}\n%s\nharmonicWalls {\n  colvars v0\n  upperWalls 1.0\n  upperWallConstant 0.5\n}"
+                    % (ids_str(ids[:2]), ids_str(oth2), harm))
+            bad = r.choice(["harmonic { colvars nosuchvar centers 0.0 forceConstant 1.0 }",
+                            "harmonic { colvars v0 centers 1.0 2.0 forceConstant 1.0 }",
+                            "colvar { name v1 distance { group1 { atomNumbers %d } } }" % (ids[2] + 1),
+                            "colvar { name v0 distance { group1 { atomNumbers 1 } group2 { atomNumbers 2 } } }",
+                            "metadynamics { colvars v0 hillWeight 1.0 }",
+                            "harmonic { colvars v0 centers 1.0 forceConstant 1.0 nosuchkeyword 3 }"])
+            script = ["scriptu cv|config|" + bad]
+            script_error_ok = True
+        elif name == "antipodal_distanceDir":
+            # a unit-vector variable with a restraint centred EXACTLY opposite (cut locus of the geodesic distance): the
+            # energy is finite there; whatever force is applied must be finite too
+            touched = sorted(ids[:2])
+            ax = r.choice([(1.0, 0.0, 0.0), (0.0, -1.0, 0.0), (0.0, 0.0, 1.0), (0.6, 0.8, 0.0)])
+            conf = ("colvar {\n  name v0\n  distanceDir {\n    group1 {\n      atomNumbers %d\n    }\n    group2 {\n      atomNumbers %d\n    }\n  }\n}\n"
+                    "harmonic {\n  colvars v0\n  centers (%r, %r, %r)\n  forceConstant 2.0\n}" % (ids[0] + 1, ids[1] + 1, -ax[0], -ax[1], -ax[2]))
+            exact = (ids[0], ids[1], ax)
         elif name == "scripted_vsum":
             # scriptedFunction through the engine's callback (vsim: vsum = sum of the component values, gradient 1)
             touched = sorted(set(ids[:3] + oth2))
@@ -1687,6 +1792,15 @@ def gen_unmodelled(r, n):
                     "  distanceZ {\n    componentCoeff -1.5\n    main {\n      atomNumbers %s\n    }\n    ref {\n      atomNumbers %s\n    }\n  }\n}\n%s\nlinear {\n  colvars v0\n  centers 0.0\n  forceConstant -0.5\n}"
                     % (ids_str(ids[:2]), ids_str(oth2), ids_str(ids[2:]), ids_str(oth2), harm))
         c = raw_case(r, full_name, na, conf, touched, cell=cell)
+        if exact:
+            a0, a1, ax = exact
+            at = list(c["atoms"])
+            p0 = tuple(V.dyadic(r, -2, 2, bits=3) for _ in range(3))
+            ln_ = r.choice([1.0, 2.5, 5.0])
+            at[a0] = (at[a0][0], at[a0][1], p0)
+            at[a1] = (at[a1][0], at[a1][1], tuple(x + ln_ * u for x, u in zip(p0, ax)))
+            c["atoms"] = at
+            c["nofd"] = True
         if rst:
             # state saved, fresh instance with changed legal options, state loaded (kernels / hills keep their own widths)
             confB = conf
@@ -1696,10 +1810,11 @@ def gen_unmodelled(r, n):
                 confB = confB.replace(old_, new_)
             if name == "meta_nogrid" and r.random() < 0.5:
                 confB = confB.replace("width 0.5", "width 1.0")
-            c["restart"] = {"raw_config": confB, "fmt": r.choice(["text", "binary"])}
-            c["restartfreq_override"] = 1001
+            c["restart"] = {"raw_config": confB, "fmt": r.choice(["text", "binary", "textstr", "binarybuf"])}
         if script:
             c["script"] = script
+            if script_error_ok:
+                c["script_error_ok"] = True
         if files:
             c["files"] = files
         if wrap:
@@ -1735,7 +1850,7 @@ def gen_unmodelled(r, n):
         if pre == "shift2":
             # hills are deposited when step_absolute % 1000 == 0 and step_relative > 0: start at step 999, so that the
             # second pre-step (at a slightly different configuration) deposits the only hill / kernel
-            c["setstep"] = 999
+            c["setstep"] = r.choice([999, 999, 2999999999, 4294967295999, 9007199254740999, 4611686018427386999])
             c["temperature"] = 300.0
             c["restartfreq"] = 100000     # OPES divides by the restart frequency (0 is the subject of C10, not of this check)
             if c.get("restartfreq_override"):
@@ -1955,7 +2070,8 @@ def check(run):
                 run.dist("restart:%s:%s" % (b["type"], case["restart"]["fmt"]))
         for b in case["biases"]:
             if b.get("moving"):
-                run.dist("moving:%s:%s" % (b["type"], "centers" if b["moving"].get("tc") is not None else "forceConstant"))
+                run.dist("moving:%s:%s%s" % (b["type"], "centers" if b["moving"].get("tc") is not None else "forceConstant",
+                                             ":staged%d:after%d" % (b["moving"]["stages"], b["moving"]["K"]) if b["moving"].get("stages") else ""))
         if res is not None and not res.get("done") and res.get("config") and "err=ok" in res["config"]:
             run.violation("crash:" + signature(case)[3:], "the engine simulator died (rc=%s) on a generated configuration: %s" % (res.get("rc"), res.get("stderr", "")[-200:]),
                           {"kind": "scenario", "scenario": scenario(case, "0")})
@@ -2004,7 +2120,7 @@ def check(run):
     # ---- finite-difference sweep over configurations the model does not cover (a few per kind in the quick tier)
     if True:
         ur = V.rng("C01-unmodelled")
-        ucases = gen_unmodelled(ur, 207 if quick else 6000)
+        ucases = gen_unmodelled(ur, 213 if quick else 6000)
         ures = run_vsim(vsim, ucases)
         for case, res in zip(ucases, ures):
             name = case["name"]
@@ -2015,15 +2131,25 @@ def check(run):
             if "err=ok" not in res["config"]:
                 run.dist("unmodelled-config-rejected:" + name)
                 continue
-            if any("err=ok" not in ln for ln in res.get("script", [])):
+            if any("err=ok" not in ln for ln in res.get("script", [])) and not case.get("script_error_ok"):
                 run.dist("unmodelled-script-rejected:" + name)
                 continue
+            if case.get("script_error_ok"):
+                run.dist("unmodelled:%s:%s" % (name, "rejected" if any("err=ok" not in ln for ln in res.get("script", [])) else "accepted"))
             if not res.get("done"):
                 run.violation("crash:" + name, "the engine simulator died on an accepted configuration (%s)" % name,
                               {"kind": "scenario", "scenario": scenario(case, "0")})
                 continue
-            s, d = fd_check(case, res)
             npre = npre_steps(case)
+            if len(res["steps"]) > npre and "err=ok" in res["steps"][npre].get("err", "") and \
+               any(math.isnan(x) or math.isinf(x) for f in res["steps"][npre]["atomf"].values() for x in f):
+                run.violation("nonfinite-force:" + name, "unmodelled configuration %s: the step reports no error and an energy of %r but hands non-finite forces to the engine: %r"
+                              % (name, res["steps"][npre].get("energy"), res["steps"][npre]["atomf"]), {"kind": "fd", "case": case, "detail": {}})
+                continue
+            if case.get("nofd"):
+                run.dist("unmodelled-ok:" + name + ":finite-forces")
+                continue
+            s, d = fd_check(case, res)
             base = res["steps"][npre]
             nz = any(abs(x) > 1e-9 for f in base["atomf"].values() for x in f)
             run.count("unmodelled:" + name, s == "ok" and nz)
